@@ -8,8 +8,8 @@
   schedule), `copy_bdd(u, other, bdd)` (ANY source table and node), pickle `load(file, levels)`
   (ANY content) — accepted or REJECTED, dynamic reordering enabled or not.  Guards: the three
   caller obligations of DDProps.Histories; "the model does not report a schedule mismatch" for a
-  reordering call with a recorded schedule; the no-gap obligation of `add_var` (F7) for the
-  declarations that `load(…, levels=True)` makes.  Nothing else: no well-formedness of files,
+  reordering call with a recorded schedule; "`vars` is a dict" (distinct names) for the
+  content given to `load(…, levels=True)`.  Nothing else: no well-formedness of files,
   tables, texts or renamings, no "operands held", no "two variables".
 
   Starting points (DDProofs.Reach4Start): the empty manager `BDD()`; the constructor
